@@ -403,12 +403,124 @@ def _plain_subtree(s):
     return all(_plain_subtree(x) for x in s["sels"])
 
 
+def _shape(t):
+    return "N" if t[0] == "named" else t[0][0] + _shape(t[1])
+
+
+def exclusive_parents_construct(rng, sv, doc, exclusive=True):
+    """Same response key `zk` on two composite fields under two parent types, with sub-selections that give the SAME
+    key `zx` to DIFFERENT fields (`__typename` / a leaf field): VALID when the parents are two different object types
+    (mutually exclusive: names and arguments may differ), INVALID when the parents can overlap (`exclusive=False`:
+    the same object type twice). Each side reaches its `zx` field through 0, 1 or 2 levels of nested fragment spreads.
+    Returns the feature string or None (document modified in place)."""
+    lists = []
+
+    def walk(sels, parent, d, depth):
+        if parent and sv.kind(parent) in ("interface", "union") and not (d["k"] == "op" and d["op"] == "subscription" and depth == 0):
+            lists.append((sels, parent))
+        for s in sels:
+            if s["k"] == "field" and s["sels"] is not None:
+                f = sv.field(parent, s["name"]) if parent else None
+                walk(s["sels"], gs.ty_base(f["type"]) if f else None, d, depth + 1)
+            elif s["k"] == "inline":
+                walk(s["sels"], s["on"] or parent, d, depth + 1)
+    for d in doc["defs"]:
+        if d["k"] == "op":
+            walk(d["sels"], sv.root(d["op"]), d, 0)
+        elif d["k"] == "frag":
+            walk(d["sels"], d["on"], d, 0)
+    rng.shuffle(lists)
+    noreq = lambda f: not any(a["type"][0] == "nonNull" and a.get("default") is None for a in f.get("args") or [])
+    # places where a field of abstract type can be ADDED (the construct then goes into its selection set)
+    creatable = []
+
+    def walk2(sels, parent, d, depth):
+        if parent and not (d["k"] == "op" and d["op"] == "subscription" and depth == 0):
+            for h in sv.fields(parent):
+                if sv.kind(gs.ty_base(h["type"])) in ("interface", "union") and noreq(h):
+                    creatable.append((sels, h))
+        for s in sels:
+            if s["k"] == "field" and s["sels"] is not None:
+                f = sv.field(parent, s["name"]) if parent else None
+                walk2(s["sels"], gs.ty_base(f["type"]) if f else None, d, depth + 1)
+            elif s["k"] == "inline":
+                walk2(s["sels"], s["on"] or parent, d, depth + 1)
+    for d in doc["defs"]:
+        if d["k"] == "op":
+            walk2(d["sels"], sv.root(d["op"]), d, 0)
+        elif d["k"] == "frag":
+            walk2(d["sels"], d["on"], d, 0)
+    rng.shuffle(creatable)
+    lists = lists + [(None, gs.ty_base(h["type"]), sels, h) for sels, h in creatable]
+    for entry in lists:
+        if len(entry) == 2:
+            l, par = entry
+            host = None
+        else:
+            l, par, hostsels, h = entry
+            host = (hostsels, h)
+        objs = sorted(sv.possible(par))
+        pairs = []
+        for o1 in objs:
+            for o2 in objs:
+                if (o1 != o2) != exclusive:
+                    continue
+                for f1 in sv.fields(o1):
+                    t1 = gs.ty_base(f1["type"])
+                    if sv.kind(t1) not in ("object", "interface", "union") or not noreq(f1):
+                        continue
+                    for f2 in sv.fields(o2):
+                        t2 = gs.ty_base(f2["type"])
+                        if sv.kind(t2) in ("object", "interface") and noreq(f2) and _shape(f1["type"]) == _shape(f2["type"]) \
+                                and (exclusive or f1["name"] == f2["name"]):
+                            leafs = [g for g in sv.fields(t2) if sv.is_leaf(gs.ty_base(g["type"])) and noreq(g)]
+                            if leafs:
+                                pairs.append((o1, f1, t1, o2, f2, t2, leafs))
+        if not pairs:
+            continue
+        o1, f1, t1, o2, f2, t2, leafs = rng.choice(pairs)
+        g2 = rng.choice(leafs)
+        if host is not None:
+            hostsels, h = host
+            l = []
+            hostsels.insert(rng.randint(0, len(hostsels)),
+                            {"k": "field", "alias": "zh" + "".join(rng.choice("abcdefghij") for _ in range(3)), "name": h["name"],
+                             "args": [], "dirs": [], "sels": l})
+        inner1 = {"k": "field", "alias": "zx", "name": "__typename", "args": [], "dirs": [], "sels": None}
+        inner2 = {"k": "field", "alias": "zx", "name": g2["name"], "args": [], "dirs": [], "sels": None}
+        uid = "".join(rng.choice("abcdefghij") for _ in range(3))
+        newfrags = []
+
+        def side(inner, t, levels, tag):
+            sels = [inner]
+            for k in range(levels):
+                name = "Zn%s%s%d" % (uid, tag, k)
+                newfrags.append({"k": "frag", "name": name, "on": t, "dirs": [], "sels": sels})
+                sels = [{"k": "spread", "name": name, "dirs": []}]
+            return sels
+        lv1, lv2 = rng.choice([0, 1, 2]), rng.choice([0, 1, 2])
+        a = {"k": "inline", "on": o1, "dirs": [], "sels": [
+            {"k": "field", "alias": "zk", "name": f1["name"], "args": [], "dirs": [], "sels": side(inner1, t1, lv1, "a")}]}
+        b = {"k": "inline", "on": o2, "dirs": [], "sels": [
+            {"k": "field", "alias": "zk", "name": f2["name"], "args": [], "dirs": [], "sels": side(inner2, t2, lv2, "b")}]}
+        i = rng.randint(0, len(l))
+        l[i:i] = [a, b] if rng.random() < 0.5 else [b, a]
+        for x in newfrags:
+            doc["defs"].insert(rng.randint(0, len(doc["defs"])), x)
+        return "same-key-subfields-%s-parents-levels-%d-%d" % ("exclusive" if exclusive else "overlapping", lv1, lv2)
+    return None
+
+
 def gen_document(rng, desc, size=2):
     for _ in range(20):
         g = DocGen(rng, desc, size)
         doc = g.document()
         if required_args_ok(g.sv, doc):
-            return doc
+            break
+    if rng.random() < 0.85:
+        feat = exclusive_parents_construct(rng, g.sv, doc, exclusive=True)
+        if feat:
+            doc["_features"] = [feat]
     return doc
 
 
